@@ -5,6 +5,7 @@ import (
 	"database/sql"
 	"errors"
 	"fmt"
+	"math"
 	"sort"
 	"strconv"
 	"strings"
@@ -29,10 +30,84 @@ const (
 	notFoundExpiry = 4 * time.Second  // 3.8 -> 4, 4.2 -> 5
 	indexGapSlack  = 5                // seconds a primary entry written through QueryRowIndex may exceed ceil(1.05*expiry)
 
+	// canonical names of the cache keys (reference, oracles, state keys); the names handed to the
+	// API depend on the primary-key shape of the run (keyPrefix + rendered primary key) and, for
+	// the index key, on the cluster placement: see backend.real / backend.canonical
 	keyP1 = "c06:p:1" // primary-key cache key of row 1
 	keyP2 = "c06:p:2" // primary-key cache key of row 2
 	keyIx = "c06:i:a" // unique-index cache key (name = "a") -> primary key of row 1
+
+	keyPrefix = "c06:p:" // the model's keyer: keyPrefix + fmt.Sprint(primary), as goctl generates it
 )
+
+// pkShape: the primary keys of row 1 and row 2 as the database holds them (the value the index
+// query returns as `any`, the argument the model hands to its primary-key query).
+type pkShape struct {
+	name string
+	pk   [2]any
+}
+
+// Shapes, simplest first. The second key of "mega"/"huge" is chosen adversarially: it is what the
+// first one becomes when it is pushed through a float64 (1e6 renders as 1e+06; 2^53+1 rounds to
+// 2^53), i.e. a lossy round trip of the primary key lands on the OTHER row.
+var shapes = []pkShape{
+	{"small", [2]any{int64(1), int64(2)}},
+	{"mega", [2]any{int64(1000001), int64(1000000)}},                 // >= 1e6: float formatting switches to exponent
+	{"huge", [2]any{int64(9007199254740993), int64(9007199254740992)}}, // > 2^53: not representable as float64
+	{"str", [2]any{"u-1", "u-2"}},
+}
+
+// shape is the primary-key shape of the history / execution being run (process-global like env;
+// set at the start of every history and every scenario body).
+var shape = &shapes[0]
+
+func shapeByName(n string) *pkShape {
+	for i := range shapes {
+		if shapes[i].name == n {
+			return &shapes[i]
+		}
+	}
+	return nil
+}
+
+// pkOf: primary key of row k1 / k2 under the current shape; pkString its exact rendering.
+func pkOf(k string) any {
+	if k == "k1" {
+		return shape.pk[0]
+	}
+	return shape.pk[1]
+}
+func pkString(k string) string { return fmt.Sprint(pkOf(k)) }
+
+// ixJSON: what a coherent index entry holds (the JSON of row 1's primary key).
+func ixJSON() string {
+	if s, ok := shape.pk[0].(string); ok {
+		return strconv.Quote(s)
+	}
+	return fmt.Sprint(shape.pk[0])
+}
+
+// denotesExactly: does the value the implementation handed to the primary-key query denote the
+// primary key pk exactly? Integers of any width, json.Number and decimal strings must render to
+// the same digits; a float64 only if it is integral, within the exactly representable range and
+// equal. (The type is not pinned: the statement only cares which row is asked for.)
+func denotesExactly(arg, pk any) bool {
+	want := fmt.Sprint(pk)
+	switch a := arg.(type) {
+	case float64:
+		n, ok := pk.(int64)
+		return ok && a == math.Trunc(a) && math.Abs(a) <= 1<<53 && int64(a) == n
+	case float32:
+		n, ok := pk.(int64)
+		return ok && float32(int64(a)) == a && math.Abs(float64(a)) <= 1<<24 && int64(a) == n
+	default:
+		return fmt.Sprint(arg) == want
+	}
+}
+
+func renderArg(arg any) string {
+	return strings.ReplaceAll(fmt.Sprintf("%T(%v)", arg, arg), " ", "_")
+}
 
 // ceilSec(f * d) in whole seconds, computed independently of the implementation.
 func ceilSecs(factorPermille int, d time.Duration) int {
@@ -58,9 +133,30 @@ var jitterName = []string{"x1.00", "x1.05", "x0.95"}
 
 // Row is the database row type.
 type Row struct {
-	ID   int64  `json:"id"`
+	ID   int64  `json:"id"`            // integer primary key (integer shapes)
+	SID  string `json:"sid,omitempty"` // string primary key (shape "str")
 	Name string `json:"name"`
 	V    string `json:"v"`
+}
+
+// pk renders the primary key the row carries.
+func (r *Row) pk() string {
+	if r.SID != "" {
+		return r.SID
+	}
+	return fmt.Sprint(r.ID)
+}
+
+// newRow builds row k (k1|k2) as the database holds it under the current shape.
+func newRow(k, val string) Row {
+	r := Row{Name: rowNameOf(k), V: val}
+	switch p := pkOf(k).(type) {
+	case int64:
+		r.ID = p
+	case string:
+		r.SID = p
+	}
+	return r
 }
 
 var (
@@ -198,27 +294,44 @@ type backend struct {
 }
 
 func (b *backend) real(k string) string {
-	if k == keyIx {
+	switch k {
+	case keyIx:
 		return b.ixActual
+	case keyP1:
+		return keyPrefix + pkString("k1")
+	case keyP2:
+		return keyPrefix + pkString("k2")
 	}
 	return k
 }
 
 func (b *backend) canonical(k string) string {
-	if k == b.ixActual {
+	switch k {
+	case b.ixActual:
 		return keyIx
+	case keyPrefix + pkString("k1"):
+		return keyP1
+	case keyPrefix + pkString("k2"):
+		return keyP2
+	}
+	if k == keyP1 || k == keyP2 || k == keyIx {
+		return "foreign:" + k // a canonical name that is not an actual key of this shape
 	}
 	return k
 }
 
 // canonicalAll rewrites the actual index key name inside rendered strings.
 func (b *backend) canonicalAll(xs []string) []string {
-	if b.ixActual == keyIx {
+	if b.ixActual == keyIx && shape == &shapes[0] {
 		return xs
 	}
 	out := make([]string, len(xs))
 	for i, x := range xs {
 		out[i] = strings.ReplaceAll(x, b.ixActual, keyIx)
+		if shape != &shapes[0] {
+			out[i] = strings.ReplaceAll(out[i], keyPrefix+pkString("k1"), keyP1)
+			out[i] = strings.ReplaceAll(out[i], keyPrefix+pkString("k2"), keyP2)
+		}
 	}
 	sort.Strings(out)
 	return out
@@ -246,9 +359,7 @@ func (b *backend) contents() []kv {
 			if x.typ == "string" {
 				x.val, _ = mr.Get(k)
 			}
-			if k == b.ixActual {
-				x.key = keyIx
-			}
+			x.key = b.canonical(k)
 			out = append(out, x)
 		}
 	}
@@ -270,6 +381,7 @@ func (e *envT) reset() {
 }
 
 func (e *envT) setOutage(on bool) { e.mu.Lock(); e.outage = on; e.mu.Unlock() }
+func (e *envT) outageOn() bool     { e.mu.Lock(); defer e.mu.Unlock(); return e.outage }
 
 func (e *envT) takeCmds() []redisCmd {
 	e.mu.Lock()
@@ -318,10 +430,11 @@ func (r execResult) LastInsertId() (int64, error) { return 0, nil }
 func (r execResult) RowsAffected() (int64, error) { return r.affected, nil }
 
 type fakeDB struct {
-	rows     map[int64]*Row
-	queries  int  // number of read queries executed
-	execs    int  // number of write statements executed
-	failNext bool // the next read query fails with errDB
+	rows     map[int64]*Row // by row number (1 = k1, 2 = k2); the primary key is inside the row
+	queries  int            // number of read queries executed
+	execs    int            // number of write statements executed
+	failNext bool           // the next read query fails with errDB
+	pkArgs   []any          // the primary-key argument of every primary-key query, in order
 	onQuery  func(kind string, id int64) error // optional hook run inside every query (schedules)
 }
 
@@ -336,13 +449,37 @@ func (d *fakeDB) begin() error {
 	return nil
 }
 
-// byPrimary is the "select ... where id = ?" of the model; notFound is the error the calling
-// layer is configured with.
-func (d *fakeDB) byPrimary(id int64, v any, notFound error) error {
+// rowMatching: the row a "where id = ?" with this argument selects, the way a SQL engine
+// compares: numbers numerically (a float64 argument selects the row whose key has that numeric
+// value, so a rounded key can select a DIFFERENT row), strings by content.
+func rowMatching(rows map[int64]*Row, primary any) *Row {
+	for _, no := range []int64{1, 2} {
+		r := rows[no]
+		if r == nil {
+			continue
+		}
+		switch a := primary.(type) {
+		case float64:
+			if r.SID == "" && float64(r.ID) == a {
+				return r
+			}
+		default:
+			if fmt.Sprint(primary) == r.pk() {
+				return r
+			}
+		}
+	}
+	return nil
+}
+
+// byPrimary is the "select ... where id = ?" of the model, with the argument exactly as the
+// calling layer passed it; notFound is the error the calling layer is configured with.
+func (d *fakeDB) byPrimary(primary any, v any, notFound error) error {
+	d.pkArgs = append(d.pkArgs, primary)
 	if err := d.begin(); err != nil {
 		return err
 	}
-	r := d.rows[id]
+	r := rowMatching(d.rows, primary)
 	if r == nil {
 		return notFound
 	}
@@ -350,45 +487,39 @@ func (d *fakeDB) byPrimary(id int64, v any, notFound error) error {
 	return nil
 }
 
-// byName is the unique-index query "select ... where name = ?": fills v, returns the primary key.
+// byName is the unique-index query "select ... where name = ?": fills v, returns the primary key
+// as the model does (the typed field of the row: int64 or string).
 func (d *fakeDB) byName(name string, v any, notFound error) (any, error) {
 	if err := d.begin(); err != nil {
 		return nil, err
 	}
-	for _, id := range []int64{1, 2} {
-		if r := d.rows[id]; r != nil && r.Name == name {
+	for _, no := range []int64{1, 2} {
+		if r := d.rows[no]; r != nil && r.Name == name {
 			*(v.(*Row)) = *r
+			if r.SID != "" {
+				return r.SID, nil
+			}
 			return r.ID, nil
 		}
 	}
 	return nil, notFound
 }
 
-func (d *fakeDB) upsert(id int64, name, val string) sql.Result {
+// upsert / remove address the row by its name k1|k2 (the statement itself is the harness's).
+func (d *fakeDB) upsert(k, val string) sql.Result {
 	d.execs++
-	d.rows[id] = &Row{ID: id, Name: name, V: val}
+	r := newRow(k, val)
+	d.rows[rowIDOf(k)] = &r
 	return execResult{1}
 }
 
-func (d *fakeDB) remove(id int64) sql.Result {
+func (d *fakeDB) remove(k string) sql.Result {
 	d.execs++
-	if d.rows[id] == nil {
+	if d.rows[rowIDOf(k)] == nil {
 		return execResult{0}
 	}
-	delete(d.rows, id)
+	delete(d.rows, rowIDOf(k))
 	return execResult{1}
-}
-
-func primaryID(primary any) int64 {
-	n, err := strconv.ParseInt(fmt.Sprint(primary), 10, 64)
-	if err != nil {
-		f, err2 := strconv.ParseFloat(fmt.Sprint(primary), 64)
-		if err2 != nil {
-			return -1
-		}
-		return int64(f)
-	}
-	return n
 }
 
 var errUnused = errors.New("c06: fakeDB statement interface is not used by the cached layer")
